@@ -51,7 +51,7 @@ var instanceMethods = []string{"Compute", "Report", "IdlePeriod", "Name", "Strin
 func CheckC09(c *Ctx) {
 	run := c.Run
 	run.Technique = "SSA mod-summary analysis (Engine C): for every function, through which parameters / captured variables / package variables memory may be written (stores, map updates, deletes; field-insensitive; allocations, constructor results and channel receives are fresh), propagated to a fixpoint over the CHA call graph; closure-cell ownership lint"
-	run.Explanation = "For every Compute, Report, IdlePeriod, Name and String method of every indicator and strategy type, no store, map update or delete reachable from the method (through static calls, interface calls resolved by class-hierarchy analysis, goroutines and closures) goes through the receiver or anything loaded from it, and none goes to a package-level variable. All remaining state is then allocated per call, which — together with C03's determinacy and linearity rules — makes repeated and concurrent calls on one instance independent: the mechanism the property anchors ('receivers are only read'). Objects that travel through the module's channels as pointers (snapshots, results) are written only by the function that allocated them (element-purity: a store into a field of a received, passed-in or captured element is reported). Additionally every mutable local captured by a closure that a helper stage runs in its own goroutine is referenced by that one closure only (single owner). The dynamic race detector's view of third-party code is not covered. Instance freshness: the indicator and strategy packages keep no package-level variable whose type can hold a reference, and no slice window (x[a:b] without a capacity bound) is handed to a constructor's variadic list or stored in a field (instances would share a backing array)."
+	run.Explanation = "For every Compute, Report, IdlePeriod, Name and String method of every indicator and strategy type, no store, map update or delete reachable from the method (through static calls, interface calls resolved by class-hierarchy analysis, goroutines and closures) goes through the receiver or anything loaded from it, and none goes to a package-level variable. All remaining state is then allocated per call, which — together with C03's determinacy and linearity rules — makes repeated and concurrent calls on one instance independent: the mechanism the property anchors ('receivers are only read'). Objects that travel through the module's channels as pointers (snapshots, results) are written only by the function that allocated them (element-purity: a store into a field of a received, passed-in or captured element is reported). Additionally every mutable local captured by a closure that a helper stage runs in its own goroutine is referenced by that one closure only (single owner). The dynamic race detector's view of third-party code is not covered. Instance freshness: the indicator and strategy packages keep no package-level variable whose type can hold a reference, and no slice window (x[a:b] without a capacity bound) is handed to a constructor's variadic list or stored in a field (instances would share a backing array). No function-typed field of an indicator or strategy struct receives a closure that writes one of its captured variables (values resolved on SSA through module functions and generic instantiations): state cannot hide on the instance inside a closure."
 	run.Trusted = []string{"go/ssa, CHA call graph (golang.org/x/tools v0.29.0)", "freshness of allocations, constructor results and received channel elements", "field-insensitive aliasing (over-approximation)"}
 	ms := c.modsum()
 	run.Count("ssa_functions", len(ms.Funcs))
@@ -165,6 +165,7 @@ func CheckC09(c *Ctx) {
 		c.ok()
 	}
 	c.packageState()
+	c.statefulFuncFields()
 }
 
 // packageState: the indicator and strategy packages keep no package-level variable through which
